@@ -525,6 +525,7 @@ package keeper
 //@ search 0 invariant {exact} forall(a, int, forall(b, int, forall(i, int, forall(w, string, 0 <= i && i < len(prices) && 0 <= a && a < b && b < len(prices) ==> demGroup(w, bidsByPrice[decStr(prices[i])], len(bidsByPrice[decStr(prices[i])]), priceAt(prices, b)) <= demGroup(w, bidsByPrice[decStr(prices[i])], len(bidsByPrice[decStr(prices[i])]), priceAt(prices, a))))))
 //@ search 0 invariant {exact} forall(a, int, forall(i, int, forall(w, string, 0 <= i && i < len(prices) && 0 <= a && a < len(prices) ==> demGroup(w, bidsByPrice[decStr(prices[i])], len(bidsByPrice[decStr(prices[i])]), priceAt(prices, a)) >= 0)))
 //@ search 0 invariant {exact} forall(a, int, forall(b, int, forall(w, string, 0 <= a && a < b && b < len(prices) ==> demUpTo(w, prices, bidsByPrice, len(prices), priceAt(prices, b)) <= demUpTo(w, prices, bidsByPrice, len(prices), priceAt(prices, a)))))
+//@ search 0 invariant {exact} forall(a, int, forall(b, int, 0 <= a && a < b && b < len(prices) ==> cappedDemand(allowedBidders, prices, bidsByPrice, priceAt(prices, b)) <= cappedDemand(allowedBidders, prices, bidsByPrice, priceAt(prices, a))))
 //@ search 0 invariant (hiS == len(prices) ==> matchNone(matchRes)) && (hiS < len(prices) ==> matchLight(matchRes, priceAt(prices, hiS), prices, bidsByPrice, sellingAmt, allowedBidders))
 //@ search 0 invariant {exact} hiS < len(prices) ==> matchPost(matchRes, priceAt(prices, hiS), prices, bidsByPrice, sellingAmt, allowedBidders)
 //@ loop 0 invariant 0 <= idx && idx <= len(bids)
@@ -539,7 +540,13 @@ package keeper
 //@ loop 3 invariant forall(id, uint64, has(matchedBidIds, id) ==> matchedBidIds[id] && exists(j, int, 0 <= j && j < idx && matchRes.MatchedBids[j].Id == id))
 //@ loop 3 invariant forall(j, int, 0 <= j && j < idx ==> has(matchedBidIds, matchRes.MatchedBids[j].Id))
 //@ loop 4 invariant 0 <= idx && idx <= len(bids)
+//@ loop 4 invariant forall(i, int, forall(j, int, 0 <= i && i < j && j < len(bids) ==> bids[i].Id != bids[j].Id))
+//@ loop 4 invariant forall(m, int, 0 <= m && m < len(bids) ==> bids[m].AuctionId == auction.Id && 1 <= bids[m].Id && bids[m].Id <= BidSeq[auction.Id] && sameExcept(old(Bid)[auction.Id][bids[m].Id], bids[m]))
+//@ loop 4 invariant forall(m, int, idx <= m && m < len(bids) ==> Bid[auction.Id][bids[m].Id] == old(Bid)[auction.Id][bids[m].Id])
+//@ loop 4 invariant forall(m, int, 0 <= m && m < idx ==> Bid[auction.Id][bids[m].Id].IsMatched == has(matchedBidIds, bids[m].Id))
+//@ loop 4 invariant len(bids) == BidSeq[auction.Id] && forall(j, int, 0 <= j && j < len(bids) ==> exists(m, int, 0 <= m && m < len(bids) && bids[m].Id == j+1))
 //@ loop 4 invariant forall(a, uint64, forall(i, uint64, Bid[a][i].present == old(Bid[a][i]).present && ite(a == auction.Id, sameExcept(Bid[a][i], old(Bid[a][i]), IsMatched), Bid[a][i] == old(Bid[a][i]))))
+//@ exit [C16,C03] the-matched-flag-of-every-bid-says-whether-it-is-in-the-final-matching: result1 == nil ==> forall(j, int, 0 <= j && j < BidSeq[auction.Id] ==> Bid[auction.Id][j+1].IsMatched == has(matchedBidIds, j+1))
 //@ exit [C03] {exact} clearing-price-is-at-most-every-recorded-price-whose-capped-demand-fits: result1 == nil ==> forall(q, int, 0 <= q && q < len(prices) && cappedDemand(allowedBidders, prices, bidsByPrice, priceAt(prices, q)) <= sellingAmt ==> result0.MatchedPrice <= priceAt(prices, q))
 //@ exit [C03] {exact} clearing-price-is-a-recorded-price-that-fits-and-the-total-is-its-capped-demand: result1 == nil ==> forall(q, int, 0 <= q && q < len(prices) && cappedDemand(allowedBidders, prices, bidsByPrice, priceAt(prices, q)) <= sellingAmt ==> exists(r, int, 0 <= r && r < len(prices) && result0.MatchedPrice == priceAt(prices, r) && cappedDemand(allowedBidders, prices, bidsByPrice, priceAt(prices, r)) <= sellingAmt && result0.TotalMatchedAmount == cappedDemand(allowedBidders, prices, bidsByPrice, priceAt(prices, r))))
 //@ exit [C03,C05] {exact} every-bidder-is-allocated-the-capped-demand-at-the-clearing-price: result1 == nil && result0.TotalMatchedAmount > 0 ==> forall(w, string, forall(k, int, 0 <= k && k < len(allowedBidders) && allowedBidders[k].Bidder == w && has(result0.AllocationMap, w) ==> result0.AllocationMap[w] == min(allowedBidders[k].MaxBidAmount, demUpTo(w, prices, bidsByPrice, len(prices), result0.MatchedPrice))))
